@@ -413,8 +413,97 @@ mod verif_search {
         println!("SEARCH-DONE property=c08 no failing input in {} (stream, parameter vector) pairs ({} vectors outside the estimator's range skipped)", n, skipped);
     }
 
+
+    /// C03 with zlib's own inflate (raw mode, 32 KiB window) as the oracle: the one assumption the proof of C03 leaves
+    /// (zlib == the RFC transcription) is exercised here. Only compiled for the thorough tier (needs the libz-sys
+    /// dev-dependency): RUSTFLAGS --cfg verif_zlib.
+    #[cfg(verif_zlib)]
+    extern "C" fn z_alloc(_: *mut std::ffi::c_void, items: u32, size: u32) -> *mut std::ffi::c_void {
+        unsafe {
+            let n = items as usize * size as usize + 16;
+            let p = std::alloc::alloc_zeroed(std::alloc::Layout::from_size_align(n, 16).unwrap());
+            if p.is_null() { return std::ptr::null_mut(); }
+            *(p as *mut usize) = n;
+            p.add(16) as *mut std::ffi::c_void
+        }
+    }
+    #[cfg(verif_zlib)]
+    extern "C" fn z_free(_: *mut std::ffi::c_void, p: *mut std::ffi::c_void) {
+        unsafe {
+            if p.is_null() { return; }
+            let base = (p as *mut u8).sub(16);
+            let n = *(base as *mut usize);
+            std::alloc::dealloc(base, std::alloc::Layout::from_size_align(n, 16).unwrap());
+        }
+    }
+    #[cfg(verif_zlib)]
+    fn zlib_inflate_raw(data: &[u8]) -> Option<(Vec<u8>, usize)> {
+        use libz_sys::*;
+        use std::{mem, ptr};
+        unsafe {
+            let mut strm = z_stream {
+                next_in: data.as_ptr() as *mut _, avail_in: data.len() as u32, next_out: ptr::null_mut(), avail_out: 0,
+                total_in: 0, total_out: 0, msg: ptr::null_mut(), state: ptr::null_mut(),
+                zalloc: z_alloc, zfree: z_free, opaque: ptr::null_mut(),
+                data_type: 0, adler: 0, reserved: 0,
+            };
+            let rc = inflateInit2_(&mut strm, -15, zlibVersion(), mem::size_of::<z_stream>() as i32);
+            assert_eq!(rc, Z_OK);
+            let mut out = vec![0u8; 4 << 20];
+            strm.next_out = out.as_mut_ptr(); strm.avail_out = out.len() as u32;
+            let rc = inflate(&mut strm, Z_FINISH);
+            let (total_in, total_out) = (strm.total_in as usize, strm.total_out as usize);
+            inflateEnd(&mut strm);
+            if rc != Z_STREAM_END { return None; }
+            out.truncate(total_out);
+            Some((out, total_in))
+        }
+    }
+    #[cfg(verif_zlib)]
+    fn search_c03z(seed: u64) {
+        let mut rng = Rng(seed.wrapping_mul(0x9E3779B97F4A7C15) ^ 0xC03);
+        let (mut n, mut both, mut gen_checked) = (0u64, 0u64, 0u64);
+        let fail = |d: &[u8], msg: String| -> ! { println!("FAILING-INPUT property=c03 what={:?} stream={}", msg, hex(&d[..d.len().min(4000)])); panic!("search: {}", msg); };
+        let mut check = |d: &[u8], expect: Option<&[u8]>, n: &mut u64, both: &mut u64| {
+            *n += 1;
+            let z = zlib_inflate_raw(d);
+            if let (Some(t), Some((zo, zc))) = (expect, z.as_ref()) {
+                // the generator's own expectation against zlib: a disagreement here is a defect of the generator / of the
+                // RFC reading it encodes, reported as such
+                if zo.as_slice() != t || *zc != d.len() { println!("GENERATOR-MISMATCH zlib gives {} bytes / consumes {} of {}, generator expected {} bytes", zo.len(), zc, d.len(), t.len()); panic!("generator mismatch"); }
+            }
+            let d2 = d.to_vec();
+            let lib = std::panic::catch_unwind(move || parse_deflate(&d2, 0));
+            let lib = match lib { Ok(r) => r, Err(_) => fail(d, "parse_deflate panicked".into()) };
+            if let (Ok(c), Some((zo, zc))) = (lib, z) {
+                *both += 1;
+                if c.plain_text != zo { fail(d, format!("plain_text ({} bytes) differs from zlib's output ({} bytes)", c.plain_text.len(), zo.len())); }
+                if c.compressed_size != zc { fail(d, format!("compressed_size {} but zlib consumed {}", c.compressed_size, zc)); }
+            }
+        };
+        for k in 0..3000 {
+            let lenient = k % 2 == 1;
+            let (stream, text, _desc) = gen_stream(&mut rng, lenient);
+            // (the zlib-lenient family includes headers zlib rejects on purpose? no: every generated stream is valid DEFLATE)
+            check(&stream, Some(&text), &mut n, &mut both); gen_checked += 1;
+            // trailing bytes after the stream; single-bit mutations that may keep the stream valid for both decoders
+            let mut t = stream.clone(); t.extend_from_slice(&[0xAA, 0x55, 0x00]); check(&t, None, &mut n, &mut both);
+            for _ in 0..6 {
+                let mut m = stream.clone();
+                let i = rng.below(m.len() as u32) as usize; m[i] ^= 1 << rng.below(8);
+                check(&m, None, &mut n, &mut both);
+            }
+        }
+        println!("SEARCH-DONE property=c03 no failing input in {} streams against zlib's inflate ({} accepted by both decoders, {} generator expectations confirmed by zlib)", n, both, gen_checked);
+    }
+
     #[test]
     fn verif_search() {
+        #[cfg(verif_zlib)]
+        if std::env::var("VERIF_SEARCH").map(|v| v == "c03z").unwrap_or(false) {
+            let seed: u64 = std::env::var("VERIF_SEED").ok().and_then(|s| s.parse().ok()).unwrap_or(1);
+            return search_c03z(seed);
+        }
         if std::env::var("VERIF_SEARCH").map(|v| v == "c08p").unwrap_or(false) {
             let seed: u64 = std::env::var("VERIF_SEED").ok().and_then(|s| s.parse().ok()).unwrap_or(1);
             return search_c08(seed);
